@@ -1,0 +1,11 @@
+//go:build !verif
+
+package sweeper
+
+import "time"
+
+// No-op stand-ins for the verification hooks (see verif_hooks.go, build tag "verif").
+
+func verifNow(t time.Time) time.Time { return t }
+
+func verifYield(point string) {}
